@@ -49,7 +49,7 @@ pub unsafe extern "C" fn bcmp(a: *const u8, b: *const u8, n: usize) -> i32 {
     0
 }
 
-const RULE: &str = "generated: (request, key) pairs from the completeness generator (small requests, both carriers; every second one drawn until its correct signature has a given shape: leading '00', leading '000', trailing '00', leading 'ff'/'0'); for each, the expected signature (reference model) with ONE character at position p replaced by another of the same class (digit->digit, letter->letter), 'everything from p on wrong' variants, a different replacement character at p, and two-character variants that keep every order-independent digest of the string unchanged (successor at p / predecessor at another place: same byte sum; two unequal characters of one class exchanged: same multiset). Observed: the instruction-address trace (rolling hash + step count) of the complete sigv4_validate_request call in a forked child single-stepped with ptrace, under a harness-supplied byte-wise early-exit memcmp/bcmp. The traced refusal is the N-th refusal of its process for a round N per request (10000, 1000, 4096, 100, ...; the preceding ones run untraced in the same process). Every second request is validated with a TRACE-level logger that renders every record, so the formatting code behind the library's trace!/debug! calls is part of the trace. Oracle (metamorphic): for a fixed request and key the trace is identical for every p; the first variant is traced twice and a difference there makes the run inconclusive, never a violation. Non-trivial: a variant that the crate refuses with the signature-mismatch error (it reached the comparison) and whose trace was recorded; distinct by (request digest, position, kind of variant).";
+const RULE: &str = "generated: (request, key) pairs from the completeness generator (small requests, both carriers; every second one drawn until its correct signature has a given shape: leading '00', leading '000', trailing '00', leading 'ff'/'0'); for each, the expected signature (reference model) with ONE character at position p replaced by another of the same class (digit->digit, letter->letter), 'everything from p on wrong' variants, a different replacement character at p, and two-character variants that keep every order-independent digest of the string unchanged (successor at p / predecessor at another place: same byte sum; two unequal characters of one class exchanged: same multiset), and the one-character variants again in upper-case hex (compared among themselves). Observed: the instruction-address trace (rolling hash + step count) of the complete sigv4_validate_request call in a forked child single-stepped with ptrace, under a harness-supplied byte-wise early-exit memcmp/bcmp. The traced refusal is the N-th refusal of its process for a round N per request (10000, 1000, 4096, 100, ...; the preceding ones run untraced in the same process). Every second request is validated with a TRACE-level logger that renders every record, so the formatting code behind the library's trace!/debug! calls is part of the trace. Oracle (metamorphic): for a fixed request and key the trace is identical for every p; the first variant is traced twice and a difference there makes the run inconclusive, never a violation. Non-trivial: a variant that the crate refuses with the signature-mismatch error (it reached the comparison) and whose trace was recorded; distinct by (request digest, position, kind of variant).";
 
 #[derive(Clone, Copy, Default)]
 struct TraceResult {
@@ -76,6 +76,9 @@ const BALANCED: u8 = 2;
 const EXCHANGED: u8 = 3;
 /// another replacement character at p than ONE uses
 const OTHER: u8 = 4;
+/// ONE, presented in upper-case hex (what a lenient comparison would fold before comparing again). Upper-case letters may
+/// legitimately take other branches on the way in, so these variants are compared with one another, not with the others.
+const UPPER: u8 = 5;
 
 fn mode_name(m: u8) -> &'static str {
     match m {
@@ -83,6 +86,7 @@ fn mode_name(m: u8) -> &'static str {
         TAIL => "tail-wrong",
         BALANCED => "two-wrong-same-byte-sum",
         EXCHANGED => "two-exchanged",
+        UPPER => "one-char-wrong-upper-case-hex",
         _ => "one-char-wrong-other-replacement",
     }
 }
@@ -118,6 +122,10 @@ fn variant_sig(sig: &str, p: usize, mode: u8) -> String {
         }
         OTHER => {
             b[p] = wrong_char(wrong_char(wrong_char(b[p])));
+        }
+        UPPER => {
+            b[p] = wrong_char(b[p]);
+            b.make_ascii_uppercase();
         }
         _ => {
             for i in p..n {
@@ -361,6 +369,9 @@ fn main() {
             variants.push((t, p, EXCHANGED));
             variants.push((t, p, OTHER));
         }
+        for &p in &pairs {
+            variants.push((t, p, UPPER));
+        }
     }
 
     // the capturing logger is installed for the whole process family (max level Trace); whether records are rendered
@@ -478,9 +489,19 @@ fn main() {
                 continue;
             }
         }
-        let base = b0.unwrap();
+        let base0 = b0.unwrap();
+        // the upper-case group has its own baseline: its first member
+        let upper_base = idx.iter().find(|vi| variants[**vi].2 == UPPER).and_then(|vi| results[*vi]).filter(|r| r.ok);
         for &vi in idx.iter().skip(1) {
             let (_, p, tail) = variants[vi];
+            let base = if tail == UPPER {
+                match upper_base {
+                    Some(b) => b,
+                    None => continue,
+                }
+            } else {
+                base0
+            };
             let mut cc = CaseCtx::default();
             match results[vi] {
                 Some(r) if r.ok => {
